@@ -198,6 +198,21 @@ def run_minres(case, ctx):
             ctx.ok("stop_criterion_recomputed", kb, n >= 2)
     Rfin = (B64.unsqueeze(0) - S @ X64).norm(dim=-2, keepdim=True) / bn.masked_fill(zero, 1.0)
     Rfin = Rfin * live
+    # (c') "to within its stopping tolerance", with ANY preconditioner: once the update criterion has been met (or the Krylov space is
+    # exhausted) the relative residual of every system is bounded by the tolerance amplified by the condition number
+    # (with a preconditioner P the shifted systems the recurrences solve are (K + s P) x = b - what the contour quadrature needs - so only the
+    # unshifted system has a preconditioner-independent meaning and is judged)
+    # (exhaustion: without re-orthogonalisation n + 1 steps are only "exact" for well-conditioned systems)
+    if (stopped_by_tol or (kreached >= n + 1 and kapS <= 100)) and (pre is None or sk == "none"):
+        tol_eff = convs[-1]["tolerance"] if stopped_by_tol else 0.0
+        rb = 30 * tol_eff * kapS + 1e4 * kapS * eps + (0.0 if stopped_by_tol else 1e-6 * kapS)
+        if rb < 5e-2:
+            if not bool((Rfin <= rb).all()):
+                ctx.fail("residual_within_stopping_tolerance", "value", err=float(Rfin.max()),
+                         detail=f"relative residual {float(Rfin.max()):.2e} after stopping on {'the update criterion' if stopped_by_tol else 'Krylov exhaustion'} "
+                                f"(tolerance {tol_eff:.0e}, kappa {kapS:.1e}, bound {rb:.1e})", **kw)
+            else:
+                ctx.ok("residual_within_stopping_tolerance", kb, n >= 2)
     # without re-orthogonalisation the Lanczos vectors inside MINRES lose orthogonality as kappa and the step count grow, and the
     # iterate then lags behind the exact-arithmetic optimum: optimality is only decidable for small, well-conditioned systems
     if pre is None and kapS <= 100 and n <= 16 and dt == torch.float64:
